@@ -487,13 +487,17 @@ class G:
                 bound = r.choice(cand)[0]
                 self.feat.add("loop_bound_tensor")
         pre, kill_var = [], None
-        if r.random() < 0.3:
+        if self.rare(0.3):
             # `if c: v = <no read of v>` then a read of v in the same iteration, with v defined just before the loop and dead
             # after it: v must be carried by the loop (its value survives from the iteration in which the branch was taken)
             try:
                 u, uv = self.pick(env, lambda a: a.dtype.kind in "fi" and a.size > 0)
                 kill_var = self.fresh("kv")
                 pre = self.emit(f"{kill_var} = {self.expr_like(env, u, 1)}", env, indent)
+                # an accumulator of the same type, so that the body always has something to fold the killed variable into
+                kill_acc = self.fresh("ka")
+                pre += self.emit(f"{kill_acc} = {self.expr_like(env, u, 1)}", env, indent)
+                self._kill_names = (u, kill_acc)
                 bound = "3"
             except Bail:
                 pre, kill_var = [], None
@@ -529,7 +533,7 @@ class G:
                 body += self.st_assign_like(e2, indent + 1, target=self.fresh("q"))
             except Bail:
                 pass
-        if r.random() < 0.3:
+        if self.rare(0.3):
             body += self._rebind_carried_to_outer(env, e2, carried, indent + 1)
         if depth < self.depth_limit and r.random() < 0.5:
             body += self.block(e2, indent + 1, depth + 1, 1, allow_loops=False)
@@ -553,8 +557,10 @@ class G:
     def _if_kill_then_read(self, e2, indent, i, v):
         r = self.rng
         vv = e2[v]
-        u, _ = self.pick(e2, lambda a: a.dtype == vv.a.dtype and a.shape == vv.a.shape)
-        w, _ = self.pick(e2, lambda a: a.dtype == vv.a.dtype and a.shape == vv.a.shape, writable=True)
+        u, w = getattr(self, "_kill_names", (None, None))
+        if u is None or u not in e2 or w not in e2 or e2[u].a.dtype != vv.a.dtype or e2[u].a.shape != vv.a.shape or e2[w].a.shape != vv.a.shape:
+            u, _ = self.pick(e2, lambda a: a.dtype == vv.a.dtype and a.shape == vv.a.shape)
+            w, _ = self.pick(e2, lambda a: a.dtype == vv.a.dtype and a.shape == vv.a.shape, writable=True)
         if len({u, v, w}) < 3:
             raise Bail("need three distinct variables")
         for _ in range(5):
@@ -639,7 +645,7 @@ class G:
         e2 = dict(env)
         body = []
         late = None
-        if limit >= 2 and not extra and r.random() < 0.6:
+        if limit >= 2 and not extra and self.rare(0.6):
             # a variable that is only loop-carried: read at the top of the body, updated by an `if` (or an inner `for`) at the
             # END of the body, never read again in that iteration and dead after the loop — only the back edge keeps it live
             fl = [w for w in carried if env[w].a.dtype.kind == "f"]
@@ -652,7 +658,7 @@ class G:
                 late = (acc, sv, r.choice(["if", "if", "for"]))
         for w in carried:
             body += self.st_assign_like(e2, indent + 1, target=w)
-        if late is None and r.random() < 0.3:
+        if late is None and self.rare(0.3):
             body += self._rebind_carried_to_outer(env, e2, carried, indent + 1)
         if late is not None:
             acc, sv, how = late
@@ -683,6 +689,12 @@ class G:
         self.must_use.append(carried[-1])
         return out
 
+    def rare(self, p):
+        """a rare structural form: taken with probability p, or almost always in a program generated with a focus (the
+        focused programs are a fixed share of every run, so that these forms occur at every seed)"""
+        x = self.rng.random()
+        return x < (0.9 if getattr(self, "focus", None) else p)
+
     def block(self, env, indent, depth, n, allow_loops=True):
         out = []
         r = self.rng
@@ -696,6 +708,9 @@ class G:
                 if allow_loops:
                     kinds += ["for"] * 2 + ["while"]
             k = r.choice(kinds)
+            fk = getattr(self, "focus", None)
+            if fk in ("for", "while") and depth == 0 and allow_loops and made >= 1 and not getattr(self, "_focus_done", False) and tries <= n * 4:
+                k = fk              # the focused statement kind, once, after at least one ordinary statement
             snap = dict(env)
             feat = set(self.feat)
             try:
@@ -710,6 +725,8 @@ class G:
                 else:
                     out += self.st_while(env, indent, depth)
                 made += 1
+                if k == getattr(self, "focus", None) and depth == 0:
+                    self._focus_done = True
             except Bail:
                 env.clear()
                 env.update(snap)
@@ -737,10 +754,11 @@ def gen_helper(rng, idx):
     return {"name": name, "in": [dtn], "attr": (an, pyt, default), "fn": fn, "src": src, "needs_attr": False}
 
 
-def generate(rng, n_stmts=6):
+def generate(rng, n_stmts=6, focus=None):
     helpers = [gen_helper(rng, i) for i in range(rng.choice([0, 0, 1, 2]))]
     helpers = [h for h in helpers if not h["needs_attr"]] + [h for h in helpers if h["needs_attr"]]
     g = G(rng, helpers=helpers)
+    g.focus = focus
     g.suffix_names = rng.random() < 0.2
     if g.suffix_names:
         g.feat.add("suffix_like_names")
